@@ -59,7 +59,7 @@ func isWaitCall(f *fn, call *ast.CallExpr) bool {
 	if cf == nil {
 		return false
 	}
-	switch cf.Name() {
+	switch nameOf(cf) {
 	case "EpollWait", "epollWait", "Kevent":
 		return true
 	}
